@@ -40,5 +40,9 @@ PY
     export VERIF_RACE_BIN="$SCR/verif-race"
   fi
 fi
+if [ "$ID" = C18 ]; then
+  (cd "$REPO" && go build -o "$SCR/gennames" ./gennames) >"$SCR/build.log" 2>&1 || { cat "$SCR/build.log"; echo "BUILD FAILURE (gennames)"; exit 2; }
+  export VERIF_GENNAMES="$SCR/gennames"
+fi
 export VERIF_SELF="$BIN" VERIF_REPO="$REPO" VERIF_SCRATCH="$SCR"
 "$BIN" check "$ID" "$TIER"
